@@ -1713,11 +1713,13 @@ namespace igris
         void erase(iterator first, iterator last)
         {
             size_t sz = last - first;
-            for (size_t i = 0; i < sz; ++i)
+            iterator stop = end();
+            iterator dst = first;
+            for (iterator src = last; src != stop; ++src, ++dst)
             {
-                igris::destructor(first + i);
+                *dst = igris::move(*src);
             }
-            igris::move(last, end(), first);
+            igris::array_destructor(dst, stop);
             m_size -= sz;
         }
 
